@@ -394,6 +394,8 @@ def _p7(ctx):
             for t_ in x.tests(('Le',)):
                 if is_const(t_.a, 1) and _len(t_.b):       # 1 <= len
                     empty.update(t_.false)
+                if is_const(t_.a, 0) and _len(t_.b):       # 0 <= len: always true, the other side is never taken
+                    empty.update(t_.false)
                 if _len(t_.a) and is_const(t_.b, 0):       # len <= 0
                     empty.update(t_.true)
             for sid in x.switches():
@@ -417,6 +419,17 @@ def _p7(ctx):
                     some.update(x.switch_edges(sid, '1'))
             nloops += 1
             okn = bool(some) and bool(notifies) and all(x.must(e_, set(notifies), exits=set(g.exits) | set(x.same_site(N))) for e_ in some)
+            ctx.add('P7c', 'T-MUST', fn, okn, 'every task handed out by the drain loop is notified' if okn else
+                    '%s takes parked tasks out of the list without notifying each of them (a drained task that is not notified is lost: its future is never polled again)' % short_fn(fn),
+                    where=g.where(N), sub=short_fn(fn) + '|each.bb%d' % g.nodes[N].bb)
+        # the same loop written as `drain(..).for_each(|task| task.notify())`
+        for N in x.ext_calls(r'Iterator::for_each$'):
+            if not (alld & x.calls_in(g.call_args(N)[0])):
+                continue
+            cis = [ci_ for m_ in g.members(N) for ci_ in ((g.nodes[m_].call or {}).get('closure_insts') or ())]
+            nloops += 1
+            nset = {x.site(n_) for n_ in notifies}
+            okn = bool(cis) and bool(notifies) and all(x.site(g.insts[ci_].entry) in nset or x.must(g.insts[ci_].entry, set(notifies), exits=set(g.exits) | set(g.insts[ci_].rets)) for ci_ in cis)
             ctx.add('P7c', 'T-MUST', fn, okn, 'every task handed out by the drain loop is notified' if okn else
                     '%s takes parked tasks out of the list without notifying each of them (a drained task that is not notified is lost: its future is never polled again)' % short_fn(fn),
                     where=g.where(N), sub=short_fn(fn) + '|each.bb%d' % g.nodes[N].bb)
